@@ -167,6 +167,49 @@ int main(int argc, char **argv)
             for (const char *c = kept[i].p; *c; c++) printf("%02x", (unsigned char)*c);
             printf(".\n");
         }
+    /* "a pure function of the argument": the answer for y must not depend on what was asked before — every ordered pair (x, y)
+     * of arguments, y asked twice in a row, compared with the answer y got in the single sweep above (which the Lean side checks) */
+    {
+        static const char *tags[5] = { "PTYNAME", "PTYSHORT", "PTYLONG", "CNAME", "CISO" };
+        for (int f = 0; f < 5; f++) {
+            int dom = f < 3 ? 512 : 256, reported = 0;
+            static int idx[512];
+            long npairs = 0;
+            for (int x = 0; x < dom && reported < 3; x++)
+                for (int y = 0; y < dom && reported < 3; y++) {
+                    int ax = f < 3 ? (x >> 1) - 128 : x, rx = f < 3 ? (x & 1) : 0;
+                    int ay = f < 3 ? (y >> 1) - 128 : y, ry = f < 3 ? (y & 1) : 0;
+                    const char *r1, *r2, *base = NULL;
+                    switch (f) {
+                    case 0: (void)rdsparser_pty_lookup_name((rdsparser_pty_t)ax, rx); r1 = rdsparser_pty_lookup_name((rdsparser_pty_t)ay, ry); r2 = rdsparser_pty_lookup_name((rdsparser_pty_t)ay, ry); break;
+                    case 1: (void)rdsparser_pty_lookup_short((rdsparser_pty_t)ax, rx); r1 = rdsparser_pty_lookup_short((rdsparser_pty_t)ay, ry); r2 = rdsparser_pty_lookup_short((rdsparser_pty_t)ay, ry); break;
+                    case 2: (void)rdsparser_pty_lookup_long((rdsparser_pty_t)ax, rx); r1 = rdsparser_pty_lookup_long((rdsparser_pty_t)ay, ry); r2 = rdsparser_pty_lookup_long((rdsparser_pty_t)ay, ry); break;
+                    case 3: (void)rdsparser_country_lookup_name((rdsparser_country_t)ax); r1 = rdsparser_country_lookup_name((rdsparser_country_t)ay); r2 = rdsparser_country_lookup_name((rdsparser_country_t)ay); break;
+                    default: (void)rdsparser_country_lookup_iso((rdsparser_country_t)ax); r1 = rdsparser_country_lookup_iso((rdsparser_country_t)ay); r2 = rdsparser_country_lookup_iso((rdsparser_country_t)ay); break;
+                    }
+                    npairs++;
+                    if (x == 0) {   /* first row: remember where the single-sweep answer for y is */
+                        idx[y] = -1;
+                        for (int i = 0; i < nkept; i++)
+                            if (kept[i].tag == tags[f] && kept[i].arg == ay && kept[i].rbds == ry) { idx[y] = i; break; }
+                    }
+                    base = idx[y] >= 0 && kept[idx[y]].p ? kept[idx[y]].first : NULL;
+                    for (int k = 0; k < 2; k++) {
+                        const char *r = k ? r2 : r1;
+                        if ((r == NULL) != (base == NULL) || (r && strcmp(r, base) != 0)) {
+                            printf("HISTORY %s %d %d %d %d %d ", tags[f], ax, rx, ay, ry, k + 1);
+                            for (const char *c = r ? r : "(null)"; *c; c++) printf("%02x", (unsigned char)*c);
+                            printf(". ");
+                            for (const char *c = base ? base : "(null)"; *c; c++) printf("%02x", (unsigned char)*c);
+                            printf(".\n");
+                            reported++;
+                            break;
+                        }
+                    }
+                }
+            printf("NOTE historyPairs%s %ld\n", tags[f], npairs);
+        }
+    }
     printf("END\n");
     return 0;
 }
